@@ -283,7 +283,13 @@ impl<T: RealNumber + Scalar + AddAssign + SubAssign + MulAssign + DivAssign + Su
     }
 
     fn dot(&self, other: &Self) -> T {
-        self.dot(other)
+        if (self.nrows() != 1 && self.ncols() != 1) || (other.nrows() != 1 && other.ncols() != 1) {
+            panic!("A and B should both be either a row or a column vector.");
+        }
+        if self.len() != other.len() {
+            panic!("A and B should have the same size");
+        }
+        self.iter().zip(other.iter()).map(|(a, b)| *a * *b).sum()
     }
 
     fn slice(&self, rows: Range<usize>, cols: Range<usize>) -> Self {
